@@ -42,6 +42,10 @@ def wr1(p, res, restrict=None, rule="WR-1"):
             res.bad(rule, f.pretty, "stale-limb:%s" % v.kind, "%s (overwrite-type operation): %s" % (f.pretty, v.msg), site=f.where(v.line))
         else:
             # a function that addresses the output at one computed limb only (no loop over limbs, no forwarder) leaves the other limbs stale
+            er = wr.early_return(p, f)
+            if er is not None:
+                res.bad(rule, f.pretty, "stale-limb:early-return", "%s (overwrite-type operation): %s" % (f.pretty, er), site=f.where())
+                continue
             single = single_limb_writer(p, f, si)
             if single is not None:
                 res.bad(rule, f.pretty, "stale-limb:single-limb-writer", "%s (overwrite-type operation) writes the output only at limb `%s` and has no loop over the remaining limbs: they keep their previous contents whenever the result has more than one limb"
